@@ -1,6 +1,508 @@
-//! C03 -- monitor (to be written)
-use crate::fw::ctx;
+//! C03 -- optimise-and-extract returns an equivalent circuit over the basic gate set
+//! (library and CLI).
+//!
+//! Library: for unitary circuits c, strategy S in {flow_simp, clifford_simp, full_simp},
+//! extractor X in {gflow, gflow_simple_gauss, gflow+up_to_perm} (+ flow() after flow_simp),
+//! both backends: g = c.to_graph(); S(g); r = Extractor(g).X.extract(). Oracle: r is Ok;
+//! same qubit count; gates only HAD/ZPhase/CZ/CNOT/SWAP; U(r) proportional to U(c)
+//! (independent simulator O3; exact cross-multiplication for pi/4 phases); for up_to_perm
+//! there must exist a permutation P of the input qubits with U(r) P proportional to U(c).
+//! CLI: `quizx opt` on QASM written by the harness's own printer; exit 0, no panic text,
+//! stdout parsed by an independent mini-parser AND by Circuit::from_qasm, both must denote
+//! a map proportional to U(c).
+
+use crate::fw::{ctx, guarded, par_cases};
+use crate::gen::circuit::*;
+use crate::oracle::eval::{proportional_exact, proportional_float};
+use crate::oracle::ring::{Cf, R};
+use crate::oracle::sim::{tensor_exact, tensor_float, Circ, G};
+use quizx::circuit::Circuit;
+use quizx::extract::{ExtractError, Extractor};
+use quizx::gate::GType;
+use quizx::graph::GraphLike;
+use serde_json::json;
+use std::process::Command;
+use std::time::{Duration, Instant};
+
+pub const STRATS: [&str; 3] = ["flow_simp", "clifford_simp", "full_simp"];
+pub const EXTRS: [&str; 4] = ["gflow", "gflow_simple_gauss", "gflow_up_to_perm", "flow"];
+
+fn simp<Gr: GraphLike>(s: &str, g: &mut Gr) {
+    match s {
+        "flow_simp" => {
+            quizx::simplify::flow_simp(g);
+        }
+        "clifford_simp" => {
+            quizx::simplify::clifford_simp(g);
+        }
+        "full_simp" => {
+            quizx::simplify::full_simp(g);
+        }
+        _ => unreachable!(),
+    }
+}
+
+fn extract<Gr: GraphLike>(x: &str, g: &mut Gr) -> Result<Circuit, ExtractError<Gr>> {
+    let mut e = Extractor::new(g);
+    match x {
+        "gflow" => e.gflow().extract(),
+        "gflow_simple_gauss" => e.gflow_simple_gauss().extract(),
+        "gflow_up_to_perm" => e.gflow().up_to_perm().extract(),
+        "flow" => e.flow().extract(),
+        _ => unreachable!(),
+    }
+}
+
+enum Ref {
+    Exact(Vec<R>),
+    Float(Vec<Cf>),
+}
+
+fn reference(c: &Circ) -> Ref {
+    if c.is_pi4() {
+        Ref::Exact(tensor_exact(c).0)
+    } else {
+        Ref::Float(tensor_float(c).0)
+    }
+}
+
+fn permute_inputs<T: Clone>(t: &[T], n: usize, perm: &[usize]) -> Vec<T> {
+    // new input qubit perm[q] carries what was input qubit q
+    let mut out = t.to_vec();
+    for i in 0..(1usize << n) {
+        let mut j = 0usize;
+        for q in 0..n {
+            if (i >> (n - 1 - q)) & 1 == 1 {
+                j |= 1 << (n - 1 - perm[q]);
+            }
+        }
+        for o in 0..(1usize << n) {
+            out[(j << n) | o] = t[(i << n) | o].clone();
+        }
+    }
+    out
+}
+
+fn perms(n: usize) -> Vec<Vec<usize>> {
+    fn rec(cur: &mut Vec<usize>, used: &mut Vec<bool>, n: usize, out: &mut Vec<Vec<usize>>) {
+        if cur.len() == n {
+            out.push(cur.clone());
+            return;
+        }
+        for i in 0..n {
+            if !used[i] {
+                used[i] = true;
+                cur.push(i);
+                rec(cur, used, n, out);
+                cur.pop();
+                used[i] = false;
+            }
+        }
+    }
+    let mut out = vec![];
+    rec(&mut vec![], &mut vec![false; n], n, &mut out);
+    out
+}
+
+/// Is `got` (a harness circuit) proportional to the reference? With `any_perm`, up to a
+/// permutation of the input qubits. Returns Ok(Some(perm is identity?)) or Ok(None).
+fn equivalent(got: &Circ, reference_: &Ref, n: usize, any_perm: bool, float_tol: f64) -> Option<bool> {
+    let ps = if any_perm { perms(n) } else { vec![(0..n).collect()] };
+    match reference_ {
+        Ref::Exact(e) if got.is_pi4() => {
+            let t = tensor_exact(got).0;
+            for p in ps {
+                let tp = permute_inputs(&t, n, &p);
+                if proportional_exact(&tp, e) && !tp.iter().all(|x| crate::oracle::ring::Num::is_zero(x)) {
+                    return Some(p.iter().enumerate().all(|(i, &x)| i == x));
+                }
+            }
+            None
+        }
+        _ => {
+            let e: Vec<Cf> = match reference_ {
+                Ref::Exact(e) => e.iter().map(|r| r.to_cf()).collect(),
+                Ref::Float(e) => e.clone(),
+            };
+            let t = tensor_float(got).0;
+            for p in ps {
+                let tp = permute_inputs(&t, n, &p);
+                if proportional_float(&tp, &e, float_tol) && tp.iter().any(|x| x.norm() > 1e-9) {
+                    return Some(p.iter().enumerate().all(|(i, &x)| i == x));
+                }
+            }
+            None
+        }
+    }
+}
+
+fn check_lib<Gr: GraphLike>(family: &'static str, index: u64, backend: &str, c: &Circ, rf: &Ref) {
+    let cx = ctx();
+    let qc = to_quizx(c);
+    for s in STRATS {
+        for x in EXTRS {
+            if x == "flow" && s != "flow_simp" {
+                continue;
+            }
+            cx.count(&format!("config:{s}+{x}:{backend}"), 1);
+            let detail = |what: &str, extra: serde_json::Value| {
+                json!({"what": what, "strategy": s, "extractor": x, "backend": backend, "circuit": circ_json(c), "qasm": print_qasm(c), "extra": extra})
+            };
+            let r = guarded(|| {
+                let mut g: Gr = qc.to_graph();
+                simp(s, &mut g);
+                extract(x, &mut g).map_err(|e| e.0)
+            });
+            let out = match r {
+                Err(e) => {
+                    cx.violation(&format!("{s}+{x}|panic|{}", e.site()), family, index, detail("panic", json!(e.text())));
+                    continue;
+                }
+                Ok(Err(msg)) => {
+                    cx.violation(&format!("{s}+{x}|extraction-failed"), family, index, detail("extraction returned Err", json!(msg)));
+                    continue;
+                }
+                Ok(Ok(c1)) => c1,
+            };
+            if out.num_qubits() != c.n {
+                cx.violation(&format!("{s}+{x}|qubit-count"), family, index, detail("different qubit count", json!({"got": out.num_qubits()})));
+                continue;
+            }
+            let mut bad_gate = None;
+            for g in out.gates.iter() {
+                match g.t {
+                    GType::HAD | GType::ZPhase | GType::CZ | GType::CNOT | GType::SWAP => {}
+                    other => bad_gate = Some(format!("{other:?}")),
+                }
+                cx.count(&format!("emitted:{:?}", g.t), 1);
+            }
+            if let Some(bg) = bad_gate {
+                cx.violation(&format!("{s}+{x}|non-basic-gate|{bg}"), family, index, detail("gate outside {H,ZPhase,CZ,CNOT,SWAP}", json!({"gate": bg, "out": out.to_string()})));
+                continue;
+            }
+            let hc = match from_quizx(&out) {
+                Ok(h) => h,
+                Err(e) => {
+                    cx.violation(&format!("{s}+{x}|malformed-circuit"), family, index, detail("extracted circuit malformed", json!({"why": e, "out": out.to_string()})));
+                    continue;
+                }
+            };
+            let any_perm = x == "gflow_up_to_perm";
+            match equivalent(&hc, rf, c.n, any_perm, 1e-7) {
+                Some(identity) => {
+                    if any_perm && !identity {
+                        cx.count("up_to_perm:nontrivial-permutation", 1);
+                    }
+                }
+                None => {
+                    cx.violation(
+                        &format!("{s}+{x}|not-equivalent"),
+                        family,
+                        index,
+                        detail("extracted circuit is not proportional to the input", json!({"out": out.to_string()})),
+                    );
+                }
+            }
+        }
+    }
+}
+
+// ---------------------------------------------------------------------------------
+// O4: independent mini parser for the QASM text Circuit::to_qasm emits
+// ---------------------------------------------------------------------------------
+
+pub fn parse_qasm_lite(txt: &str) -> Result<Circ, String> {
+    let mut n: Option<usize> = None;
+    let mut gates = vec![];
+    for stmt in txt.split(';') {
+        let s = stmt.trim();
+        if s.is_empty() || s.starts_with("OPENQASM") || s.starts_with("include") {
+            continue;
+        }
+        if let Some(rest) = s.strip_prefix("qreg") {
+            let rest = rest.trim();
+            let a = rest.find('[').ok_or("qreg [")?;
+            let b = rest.find(']').ok_or("qreg ]")?;
+            if &rest[..a] != "q" {
+                return Err(format!("unexpected register {rest}"));
+            }
+            n = Some(rest[a + 1..b].parse::<usize>().map_err(|e| e.to_string())?);
+            continue;
+        }
+        // name(args) q[i], q[j]
+        let (head, qargs) = match s.find(|c: char| c == ' ' || c == '(') {
+            Some(p) if s.as_bytes()[p] == b'(' => {
+                let close = s.find(')').ok_or("missing )")?;
+                (&s[..close + 1], s[close + 1..].trim())
+            }
+            Some(p) => (&s[..p], s[p..].trim()),
+            None => return Err(format!("cannot parse '{s}'")),
+        };
+        let (name, arg) = match head.find('(') {
+            Some(p) => (&head[..p], Some(&head[p + 1..head.len() - 1])),
+            None => (head, None),
+        };
+        let mut qs = vec![];
+        for q in qargs.split(',') {
+            let q = q.trim();
+            let a = q.find('[').ok_or("qubit [")?;
+            let b = q.find(']').ok_or("qubit ]")?;
+            qs.push(q[a + 1..b].parse::<usize>().map_err(|e| e.to_string())?);
+        }
+        let phase = |arg: Option<&str>| -> Result<(i64, i64), String> {
+            let a = arg.ok_or("missing phase")?.trim();
+            let a = a.strip_suffix("*pi").ok_or(format!("phase '{a}' not of the form x*pi"))?;
+            let x: f64 = a.trim().parse().map_err(|_| format!("bad float {a}"))?;
+            let den = 1i64 << 40;
+            Ok(((x * den as f64).round() as i64, den))
+        };
+        let need = |k: usize| if qs.len() == k { Ok(()) } else { Err(format!("{name}: {} qubits", qs.len())) };
+        let g = match name {
+            "rz" => {
+                need(1)?;
+                G::Rz(qs[0], phase(arg)?)
+            }
+            "rx" => {
+                need(1)?;
+                G::Rx(qs[0], phase(arg)?)
+            }
+            "x" => {
+                need(1)?;
+                G::X(qs[0])
+            }
+            "z" => {
+                need(1)?;
+                G::Z(qs[0])
+            }
+            "s" => {
+                need(1)?;
+                G::S(qs[0])
+            }
+            "t" => {
+                need(1)?;
+                G::T(qs[0])
+            }
+            "sdg" => {
+                need(1)?;
+                G::Sdg(qs[0])
+            }
+            "tdg" => {
+                need(1)?;
+                G::Tdg(qs[0])
+            }
+            "h" => {
+                need(1)?;
+                G::H(qs[0])
+            }
+            "cx" => {
+                need(2)?;
+                G::Cx(qs[0], qs[1])
+            }
+            "cz" => {
+                need(2)?;
+                G::Cz(qs[0], qs[1])
+            }
+            "swap" => {
+                need(2)?;
+                G::Swap(qs[0], qs[1])
+            }
+            other => return Err(format!("unexpected gate {other}")),
+        };
+        gates.push(g);
+    }
+    let n = n.ok_or("no qreg")?;
+    for g in &gates {
+        if g.qubits().iter().any(|&q| q >= n) {
+            return Err("qubit out of range".into());
+        }
+    }
+    Ok(Circ { n, gates })
+}
+
+fn run_with_timeout(mut cmd: Command, secs: u64) -> Result<std::process::Output, String> {
+    use std::process::Stdio;
+    cmd.stdout(Stdio::piped()).stderr(Stdio::piped());
+    let mut child = cmd.spawn().map_err(|e| format!("spawn: {e}"))?;
+    let t0 = Instant::now();
+    loop {
+        match child.try_wait() {
+            Ok(Some(_)) => return child.wait_with_output().map_err(|e| e.to_string()),
+            Ok(None) => {
+                if t0.elapsed() > Duration::from_secs(secs) {
+                    let _ = child.kill();
+                    let _ = child.wait();
+                    return Err("timeout".into());
+                }
+                std::thread::sleep(Duration::from_millis(5));
+            }
+            Err(e) => return Err(e.to_string()),
+        }
+    }
+}
+
+fn check_cli(family: &'static str, index: u64, c: &Circ, rf: &Ref, cli: &str, dir: &str) {
+    let cx = ctx();
+    let path = format!("{dir}/c{index}.qasm");
+    if std::fs::write(&path, print_qasm(c)).is_err() {
+        cx.harness_error("cannot write qasm temp file");
+        return;
+    }
+    for (mi, method) in ["", "--full", "--flow", "--clifford"].iter().enumerate() {
+        let use_out = (index as usize + mi) % 2 == 1;
+        let outp = format!("{dir}/c{index}.{mi}.out.qasm");
+        let mut cmd = Command::new(cli);
+        cmd.arg("opt").arg(&path);
+        if !method.is_empty() {
+            cmd.arg(method);
+        }
+        if use_out {
+            cmd.arg("-o").arg(&outp);
+        }
+        cx.count(&format!("cli:opt{}{}", if method.is_empty() { ":default" } else { method }, if use_out { ":-o" } else { "" }), 1);
+        let detail = |what: &str, extra: serde_json::Value| json!({"what": what, "method": method, "with_o": use_out, "circuit": circ_json(c), "qasm": print_qasm(c), "extra": extra});
+        let out = match run_with_timeout(cmd, 120) {
+            Ok(o) => o,
+            Err(e) => {
+                cx.inconclusive("cli-watchdog-or-spawn", json!({"err": e, "index": index}));
+                continue;
+            }
+        };
+        let stdout = String::from_utf8_lossy(&out.stdout).to_string();
+        let stderr = String::from_utf8_lossy(&out.stderr).to_string();
+        if !out.status.success() || stderr.contains("panicked at") {
+            let cls = if stderr.contains("panicked at") { "panic" } else { "nonzero-exit" };
+            cx.violation(
+                &format!("cli opt {method}|{cls}"),
+                family,
+                index,
+                detail("CLI failed", json!({"code": out.status.code(), "stderr": stderr.chars().take(600).collect::<String>()})),
+            );
+            continue;
+        }
+        let text = if use_out {
+            match std::fs::read_to_string(&outp) {
+                Ok(t) => t,
+                Err(_) => {
+                    cx.violation(&format!("cli opt {method}|no-output-file"), family, index, detail("-o file not written", json!(null)));
+                    continue;
+                }
+            }
+        } else {
+            stdout
+        };
+        // independent parser
+        match parse_qasm_lite(&text) {
+            Ok(hc) => {
+                if hc.n != c.n {
+                    cx.violation(&format!("cli opt {method}|qubit-count"), family, index, detail("qubit count differs", json!({"printed": text})));
+                } else if equivalent(&hc, rf, c.n, false, 1e-6).is_none() {
+                    cx.violation(&format!("cli opt {method}|not-equivalent"), family, index, detail("printed circuit (independent parser) not equivalent", json!({"printed": text})));
+                }
+            }
+            Err(e) => cx.violation(&format!("cli opt {method}|unparsable-output"), family, index, detail("independent parser rejects the printed QASM", json!({"why": e, "printed": text}))),
+        }
+        // the repository's own parser ("parses back")
+        match guarded(|| Circuit::from_qasm(&text)) {
+            Ok(Ok(qc)) => match from_quizx(&qc) {
+                Ok(hc) => {
+                    if hc.n != c.n || equivalent(&hc, rf, c.n, false, 1e-6).is_none() {
+                        cx.violation(&format!("cli opt {method}|parse-back-not-equivalent"), family, index, detail("output parsed back by from_qasm is not equivalent", json!({"printed": text})));
+                    }
+                }
+                Err(e) => cx.violation(&format!("cli opt {method}|parse-back-malformed"), family, index, detail("parsed-back circuit malformed", json!(e))),
+            },
+            Ok(Err(e)) => cx.violation(&format!("cli opt {method}|parse-back-error"), family, index, detail("from_qasm rejects the CLI's own output", json!({"err": e, "printed": text}))),
+            Err(e) => cx.violation(&format!("cli opt {method}|parse-back-panic"), family, index, detail("from_qasm panicked on the CLI's own output", json!(e.text()))),
+        }
+        let _ = std::fs::remove_file(&outp);
+    }
+    let _ = std::fs::remove_file(&path);
+}
+
+fn check_case(family: &'static str, index: u64, c: &Circ) {
+    let cx = ctx();
+    let rf = reference(c);
+    check_lib::<quizx::vec_graph::Graph>(family, index, "vec", c, &rf);
+    check_lib::<quizx::hash_graph::Graph>(family, index, "hash", c, &rf);
+    cx.case(family, if c.gates.len() >= 2 { Some(circ_hash(c)) } else { None });
+    cx.evals(19);
+    cx.sample_n(4, || json!({"family": family, "index": index, "circuit": circ_json(c)}));
+}
 
 pub fn run() {
-    ctx().harness_error("C03 monitor not implemented yet");
+    let c = ctx();
+    let t = c.tier;
+    c.set_rule("cases = unitary circuits; each goes through 10 (strategy, extractor) configurations x 2 backends (evaluations counts these) and, in the CLI family, 4 `quizx opt` invocations; non-trivial = at least 2 gates; distinct = distinct gate sequences");
+    c.assume("independent simulator O3 correct (self-tested, cross-checked against O2)");
+    c.assume("'up to permutation' is decided as: there exists a permutation of the input qubits making the circuits proportional");
+    if parse_qasm_lite("OPENQASM 2.0;\ninclude \"qelib1.inc\";\nqreg q[2];\nrz(0.25*pi) q[0];\ncx q[0], q[1];\nh q[1];\n").map(|c| c.gates.len()) != Ok(3) {
+        c.harness_error("qasm_lite self-test failed");
+        return;
+    }
+    let (nq, depth, n) = t.pick((4usize, 30usize, 400usize), (5usize, 60usize, 20_000usize));
+    par_cases("clifford-t", n, move |r, i| {
+        let mut p = CircParams::unitary(nq, depth, PhPool::Exact);
+        p.ccz = false;
+        p.pp = false;
+        p.xcx = false;
+        let circ = gen_circuit(r, &p);
+        check_case("clifford-t", i, &circ);
+    });
+    par_cases("full-gate-set", n, move |r, i| {
+        let p = CircParams::unitary(nq, depth, PhPool::Exact);
+        let circ = gen_circuit(r, &p);
+        check_case("full-gate-set", i, &circ);
+    });
+    par_cases("rational-phases", n / 2, move |r, i| {
+        let mut p = CircParams::unitary(nq, depth, PhPool::Float);
+        p.ccz = r.chance(0.3);
+        let circ = gen_circuit(r, &p);
+        check_case("rational-phases", i, &circ);
+    });
+    par_cases("cnot-heavy", n / 2, move |r, i| {
+        // many CNOTs on few qubits: exercises Gaussian elimination and final permutations
+        let nqb = 2 + r.below(nq.max(3) - 1);
+        let mut gates = vec![];
+        let d = 4 + r.below(depth);
+        for _ in 0..d {
+            let a = r.below(nqb);
+            let mut b = r.below(nqb);
+            if a == b {
+                b = (a + 1) % nqb;
+            }
+            match r.below(10) {
+                0..=5 => gates.push(G::Cx(a, b)),
+                6 => gates.push(G::Swap(a, b)),
+                7 => gates.push(G::T(a)),
+                8 => gates.push(G::H(a)),
+                _ => gates.push(G::Cz(a, b)),
+            }
+        }
+        check_case("cnot-heavy", i, &Circ { n: nqb, gates });
+    });
+    // CLI
+    let Ok(cli) = std::env::var("QVMON_CLI") else {
+        c.harness_error("QVMON_CLI not set (run through ./check)");
+        return;
+    };
+    let dir = format!("/verif/harness/target/tmp/c03-{}", std::process::id());
+    let _ = std::fs::create_dir_all(&dir);
+    let ncli = t.pick(40usize, 2000usize);
+    {
+        let dir = dir.clone();
+        par_cases("cli-opt", ncli, move |r, i| {
+            let pool = if r.chance(0.7) { PhPool::Exact } else { PhPool::Float };
+            let mut p = CircParams::unitary(4, 24, pool);
+            p.ccz = r.chance(0.3);
+            // pp is not in the QASM prelude the parser accepts
+            p.pp = false;
+            let circ = gen_circuit(r, &p);
+            let rf = reference(&circ);
+            check_cli("cli-opt", i, &circ, &rf, &cli, &dir);
+            let cx = ctx();
+            cx.case("cli-opt", if circ.gates.len() >= 2 { Some(circ_hash(&circ) ^ 0xC11) } else { None });
+            cx.evals(3);
+        });
+    }
+    let _ = std::fs::remove_dir_all(&dir);
 }
